@@ -525,7 +525,40 @@ pub fn trait_api() -> ApiDescription<SimCtx> {
     echo_trait_api_mod::api_description::<EchoTraitImpl>().unwrap()
 }
 
+/// A path variable whose type dropshot refuses at registration (an enum with
+/// a data-carrying variant is not a scalar).  The registration below is
+/// attempted and its refusal ignored: should a change let it through, requests
+/// naming the data-carrying variant still have to be refused, not crash.
+#[derive(Deserialize, JsonSchema)]
+pub enum Mode {
+    Fast,
+    Slow,
+    Custom(u32),
+}
+
+#[derive(Deserialize, JsonSchema)]
+pub struct ModePath {
+    mode: Mode,
+}
+
+#[endpoint { method = GET, path = "/mode/{mode}" }]
+async fn echo_mode(
+    rqctx: RequestContext<SimCtx>,
+    path: Path<ModePath>,
+) -> Result<Response<Body>, HttpError> {
+    let (nonce, g) = delay(&rqctx).await;
+    let name = match path.into_inner().mode {
+        Mode::Fast => "Fast".to_string(),
+        Mode::Slow => "Slow".to_string(),
+        Mode::Custom(n) => format!("Custom({n})"),
+    };
+    let r = respond(nonce, json!({"mode": name}), ctx_json(&rqctx));
+    g.finish();
+    r
+}
+
 pub fn register(api: &mut ApiDescription<SimCtx>, versioned: bool) {
+    let _refused_on_an_unchanged_tree = api.register(echo_mode);
     api.register(echo_typed).unwrap();
     api.register(echo_form).unwrap();
     api.register(echo_raw).unwrap();
